@@ -11,6 +11,7 @@ package main
 import (
 	"encoding/json"
 	"fmt"
+	"io"
 	"math/big"
 	"os"
 	"path/filepath"
@@ -21,6 +22,7 @@ import (
 	"gitlab.com/aquachain/aquachain/common/log"
 	"gitlab.com/aquachain/aquachain/core"
 	"gitlab.com/aquachain/aquachain/params"
+	"gitlab.com/aquachain/aquachain/rlp"
 	"verifharness/hx"
 )
 
@@ -42,6 +44,7 @@ type Op struct {
 }
 
 type History struct {
+	Journal bool              `json:"journal,omitempty"` // run with a local transaction journal and check it after every operation
 	Cfg     ACfg              `json:"cfg"`
 	Genesis [nAccounts]AcctSt `json:"genesis"`
 	GasLim  uint64            `json:"gaslimit"`
@@ -117,9 +120,10 @@ func errClass(err error) string {
 // ---- one pool instance over one world --------------------------------------------------------------------------------
 
 type Sim struct {
-	w    *World
-	pool *core.TxPool
-	cfg  ACfg
+	w       *World
+	pool    *core.TxPool
+	cfg     ACfg
+	journal string
 }
 
 // lifetime of idle queued transactions; only the concurrent tier shortens it
@@ -130,14 +134,100 @@ func realCfg(c ACfg) core.TxPoolConfig {
 		AccountSlots: c.AccountSlots, GlobalSlots: c.GlobalSlots, AccountQueue: c.AccountQueue, GlobalQueue: c.GlobalQueue, Lifetime: poolLifetime}
 }
 
+// journalDir is where journals of histories with Journal=true live (the run's output directory, never /tmp)
+var journalDir = "."
+var journalSeq int
+
 func NewSim(w *World, h *History) *Sim {
 	g := w.newBlock(nil, h.GasLim, nil, h.Genesis)
 	w.SetHead(g)
-	pool := core.NewTxPool(realCfg(h.Cfg), params.TestChainConfig, w)
-	return &Sim{w: w, pool: pool, cfg: h.Cfg}
+	cfg := realCfg(h.Cfg)
+	sim := &Sim{w: w, cfg: h.Cfg}
+	if h.Journal && !h.Cfg.NoLocals {
+		journalSeq++
+		sim.journal = filepath.Join(journalDir, fmt.Sprintf("journal-%d.rlp", journalSeq))
+		os.Remove(sim.journal)
+		cfg.Journal = sim.journal
+	}
+	sim.pool = core.NewTxPool(cfg, params.TestChainConfig, w)
+	return sim
 }
 
-func (s *Sim) Close() { s.pool.Stop() }
+func (s *Sim) Close() {
+	s.pool.Stop()
+	if s.journal != "" {
+		os.Remove(s.journal)
+		os.Remove(s.journal + ".new")
+	}
+}
+
+// readJournal decodes the journal file into abstract transactions.
+func (s *Sim) readJournal() (map[ATx]bool, error) {
+	f, err := os.Open(s.journal)
+	if err != nil {
+		return nil, err
+	}
+	defer f.Close()
+	out := map[ATx]bool{}
+	st := rlp.NewStream(f, 0)
+	for {
+		tx := new(coreTx)
+		if err := st.Decode(tx); err != nil {
+			if err == io.EOF {
+				return out, nil
+			}
+			return nil, err
+		}
+		out[s.w.Abs(tx)] = true
+	}
+}
+
+// checkJournal: (1) a transaction accepted from a local sender is appended to the journal at once; (2) after a rotation
+// the journal holds exactly the pooled transactions of the local senders.
+func (s *Sim) checkJournal(o Op, res string, post *AState) []clauseFail {
+	var out []clauseFail
+	if s.journal == "" {
+		return nil
+	}
+	if o.Kind == "add" && res == "ok" && o.Txs[0].Kind == 0 && post.Local[o.Txs[0].S] {
+		j, err := s.readJournal()
+		if err != nil {
+			return []clauseFail{{clause: "journal", detail: "cannot read journal: " + err.Error()}}
+		}
+		if !j[o.Txs[0]] {
+			out = append(out, clauseFail{clause: "journal", detail: fmt.Sprintf("accepted local transaction %v not journaled", o.Txs[0])})
+		}
+	}
+	if err := s.pool.VerifRotateJournal(); err != nil {
+		return append(out, clauseFail{clause: "journal", detail: "rotate: " + err.Error()})
+	}
+	j, err := s.readJournal()
+	if err != nil {
+		return append(out, clauseFail{clause: "journal", detail: "cannot read journal: " + err.Error()})
+	}
+	want := map[ATx]bool{}
+	for i := 0; i < nAccounts; i++ {
+		if post.Local[i] {
+			for _, t := range post.Pend[i].Txs {
+				want[t] = true
+			}
+			for _, t := range post.Queue[i].Txs {
+				want[t] = true
+			}
+		}
+	}
+	for t := range want {
+		if !j[t] {
+			out = append(out, clauseFail{clause: "journal", detail: fmt.Sprintf("after rotation the journal lacks the pooled local transaction %v", t)})
+		}
+	}
+	for t := range j {
+		if !want[t] {
+			out = append(out, clauseFail{clause: "journal", detail: fmt.Sprintf("after rotation the journal holds %v, which is not a pooled transaction of a local sender", t)})
+		}
+	}
+	return out
+}
 
 type stepResult struct {
 	opStr     string // op rendering for the model
@@ -259,6 +349,10 @@ func runHistory(run *hx.Run, h *History, emit bool) (fails []failure) {
 		cf = append(cf, CheckReplacement(pre, post, h.Cfg, r.adds)...)
 		if o.Kind == "add" {
 			cf = append(cf, CheckLimitsAfterAdd(pre, post, h.Cfg, o.Txs[0], r.res)...)
+		}
+		cf = append(cf, sim.checkJournal(o, r.res, post)...)
+		if emit && sim.journal != "" {
+			run.Count("journal:rotations-checked")
 		}
 		if r.isReset {
 			cf = append(cf, CheckReorg(pre, post, h.Cfg, r.disc, r.inc, r.oldNum, r.newNum)...)
@@ -413,6 +507,7 @@ type coreTx = typesTx
 
 func main() {
 	run := hx.Start()
+	journalDir = run.OutDir
 	log.Root().SetHandler(log.DiscardHandler())
 	run.Watch(60*time.Second, 3<<30, func(cur string) string { return "hang " + cur })
 	rng := hx.NewRng(run.Seed)
